@@ -1,5 +1,6 @@
 import RedisEmu.Exec
 import RedisEmu.Proofs.AList
+import RedisEmu.Props.C10
 import Mathlib.Tactic.SplitIfs
 /-
   C07 — expiry. Theorems about `RedisEmu.Store` / `RedisEmu.Cmds` (family `expiry`).
@@ -143,5 +144,973 @@ theorem persist_spec (c : Ctx) (db : Db) (k : Bytes) (e : Entry) (h : db.live c.
     ((cmdPersist c db k).reply.int? = some 1 ↔ e.exp.isSome = true) := by
   unfold cmdPersist
   cases he : e.exp <;> simp [h, he, R.ok, Value.int?]
+
+
+/-! ## expired = missing, for every command and every history
+
+  The lemmas above are about the lookup and about single commands. What follows shows that *no* command
+  can tell an expired object from a missing key: commands see a database only through its live objects
+  (`Sim`), every command function respects that (`_obs`, one per command function), so does every command
+  on the whole server (`runCmd_obs`), and so does every history (`expired_is_missing`). -/
+
+set_option linter.unusedSectionVars false
+
+/-- two databases that no command can tell apart at the instant `now`: the same live objects under
+    the same keys (whatever expired objects either of them still stores), the same version counter -/
+structure Sim (now : Int) (a b : Db) : Prop where
+  ua : a.Uniq
+  ub : b.Uniq
+  next : a.nextId = b.nextId
+  live : ∀ k, a.live now k = b.live now k
+
+theorem sim_refl (now : Int) (a : Db) (h : a.Uniq) : Sim now a a := ⟨h, h, rfl, fun _ => rfl⟩
+
+theorem live_put (db : Db) (now : Int) (k k' : Bytes) (v : Val) (x : Option Int) :
+    (db.put k v x).live now k' =
+      if k == k' then (if ({ val := v, exp := x, id := db.nextId + 1 } : Entry).expired now then none
+                       else some { val := v, exp := x, id := db.nextId + 1 })
+      else db.live now k' := by
+  unfold Db.live
+  by_cases h : (k == k') = true
+  · have : k = k' := by simpa using h
+    subst this
+    simp only [raw_put_self, beq_self_eq_true, ↓reduceIte]
+  · have h' : (k == k') = false := by simpa using h
+    rw [raw_put_ne db k k' v x h']
+    simp only [h', Bool.false_eq_true, ↓reduceIte]
+
+theorem live_poke (db : Db) (now : Int) (k k' : Bytes) (e : Entry) :
+    (db.poke k e).live now k' = if k == k' then (if e.expired now then none else some e) else db.live now k' := by
+  unfold Db.live
+  by_cases h : (k == k') = true
+  · have : k = k' := by simpa using h
+    subst this
+    simp only [raw_poke_self, beq_self_eq_true, ↓reduceIte]
+  · have h' : (k == k') = false := by simpa using h
+    rw [raw_poke_ne' db k k' e h']
+    simp only [h', Bool.false_eq_true, ↓reduceIte]
+
+theorem live_del (db : Db) (now : Int) (k k' : Bytes) (hu : db.Uniq) :
+    (db.del k).live now k' = if k == k' then none else db.live now k' := by
+  unfold Db.live
+  by_cases h : (k == k') = true
+  · have : k = k' := by simpa using h
+    subst this
+    simp only [raw_del_self db k hu, beq_self_eq_true, ↓reduceIte]
+  · have h' : (k == k') = false := by simpa using h
+    rw [raw_del_ne' db k k' h']
+    simp only [h', Bool.false_eq_true, ↓reduceIte]
+
+theorem sim_put {now : Int} {a b : Db} (h : Sim now a b) (k : Bytes) (v : Val) (x : Option Int) :
+    Sim now (a.put k v x) (b.put k v x) := by
+  refine ⟨(vs_put (vs_refl a h.ua) k v x).uniq, (vs_put (vs_refl b h.ub) k v x).uniq, ?_, ?_⟩
+  · simp [Db.put, h.next]
+  · intro k'
+    rw [live_put, live_put, h.next, h.live k']
+
+theorem sim_poke {now : Int} {a b : Db} (h : Sim now a b) (k : Bytes) (e : Entry) :
+    Sim now (a.poke k e) (b.poke k e) := by
+  refine ⟨uniq_poke a k e h.ua, uniq_poke b k e h.ub, ?_, ?_⟩
+  · simp [Db.poke, h.next]
+  · intro k'
+    rw [live_poke, live_poke, h.live k']
+
+theorem nextId_del (db : Db) (k : Bytes) : (db.del k).nextId = db.nextId := by
+  unfold Db.del; split <;> rfl
+
+theorem sim_del {now : Int} {a b : Db} (h : Sim now a b) (k : Bytes) : Sim now (a.del k) (b.del k) := by
+  refine ⟨uniq_del a k h.ua, uniq_del b k h.ub, ?_, ?_⟩
+  · rw [nextId_del, nextId_del, h.next]
+  · intro k'
+    rw [live_del a now k k' h.ua, live_del b now k k' h.ub, h.live k']
+
+theorem sim_setDirty {now : Int} {a b : Db} (h : Sim now a b) : Sim now a.setDirty b.setDirty :=
+  ⟨h.ua, h.ub, h.next, h.live⟩
+
+theorem sim_dirtyUnlessQuirk {now : Int} {a b : Db} (c : Ctx) (h : Sim now a b) :
+    Sim now (dirtyUnlessQuirk c a) (dirtyUnlessQuirk c b) := by
+  unfold dirtyUnlessQuirk; split
+  · exact h
+  · exact sim_setDirty h
+
+theorem sim_bump {now : Int} {a b : Db} (c : Ctx) (h : Sim now a b) (e : Entry) :
+    Sim now (bump c a e).1 (bump c b e).1 ∧ (bump c a e).2 = (bump c b e).2 := by
+  unfold bump
+  split
+  · exact ⟨h, rfl⟩
+  · exact ⟨⟨h.ua, h.ub, by simp [h.next], h.live⟩, by simp [h.next]⟩
+
+theorem sim_update {now : Int} {a b : Db} (h : Sim now a b) (k : Bytes) (e : Entry) (v : Val) :
+    Sim now (a.update k e v) (b.update k e v) := by
+  unfold Db.update
+  simp only
+  have key : ∀ (p : Prop) [Decidable p], Sim now (if p then (a.del k).setDirty else (a.poke k { e with val := v }).setDirty)
+      (if p then (b.del k).setDirty else (b.poke k { e with val := v }).setDirty) := by
+    intro p _
+    split
+    · exact sim_setDirty (sim_del h k)
+    · exact sim_setDirty (sim_poke h k _)
+  exact key _
+
+theorem sim_upd {now : Int} {a b : Db} (c : Ctx) (h : Sim now a b) (k : Bytes) (e : Entry) (v : Val) :
+    Sim now (upd c a k e v) (upd c b k e v) := by
+  unfold upd
+  obtain ⟨h1, h2⟩ := sim_bump c h e
+  simp only
+  rw [h2]
+  exact sim_update h1 k _ v
+
+
+/-- two outcomes no client can tell apart: same reply, same wake-ups owed, and databases that stay
+    indistinguishable -/
+structure Obs (now : Int) (r r' : R) : Prop where
+  reply : r.reply = r'.reply
+  hint : r.hint = r'.hint
+  crash : r.crash = r'.crash
+  pushed : r.pushed = r'.pushed
+  db : Sim now r.db r'.db
+
+section helpers
+variable {c : Ctx} {a b : Db} (h : Sim c.now a b)
+include h
+
+theorem listOf_sim (k : Bytes) : listOf c a k = listOf c b k := by unfold listOf; rw [h.live]
+theorem hashOf_sim (k : Bytes) : hashOf c a k = hashOf c b k := by unfold hashOf; rw [h.live]
+theorem setOf_sim (k : Bytes) : setOf c a k = setOf c b k := by unfold setOf; rw [h.live]
+theorem setOperand_sim (k : Bytes) : setOperand c a k = setOperand c b k := by unfold setOperand; rw [setOf_sim h]
+theorem strValue_sim (k : Bytes) : strValue c a k = strValue c b k := by unfold strValue; rw [h.live]
+theorem sortSource_sim (k : Bytes) : sortSource c a k = sortSource c b k := by unfold sortSource; rw [h.live]
+theorem srcLookup_sim (hr : c.q.rawLookupSeesExpired = false) (k : Bytes) : srcLookup c a k = srcLookup c b k := by
+  unfold srcLookup; simp only [hr, Bool.false_eq_true, ↓reduceIte]; exact h.live k
+theorem bump_snd_sim (e : Entry) : (bump c a e).2 = (bump c b e).2 := (sim_bump c h e).2
+theorem sim_bump_fst (e : Entry) : Sim c.now (bump c a e).1 (bump c b e).1 := (sim_bump c h e).1
+theorem setKey_snd_sim (k v : Bytes) (o : SetOpts) (x y : Bool) : (setKey c a k v o x y).2 = (setKey c b k v o x y).2 := by
+  unfold setKey
+  simp only [h.live]
+  repeat' (first | rfl | split | dsimp only)
+theorem setKey_fst_sim (k v : Bytes) (o : SetOpts) (x y : Bool) : Sim c.now (setKey c a k v o x y).1 (setKey c b k v o x y).1 := by
+  unfold setKey
+  simp only [h.live]
+  repeat' (first | assumption | (refine sim_put ?_ _ _ _) | split | dsimp only)
+theorem putAll_sim (kvs : List (Bytes × Bytes)) : ∀ (a b : Db), Sim c.now a b → Sim c.now (putAll a kvs) (putAll b kvs) := by
+  induction kvs with
+  | nil => intro a b h; exact h
+  | cons p r ih =>
+    intro a b h
+    obtain ⟨k, v⟩ := p
+    unfold putAll
+    exact ih _ _ (sim_put h _ _ _)
+theorem setAlgebra_go_sim (rest d : List Bytes) : setAlgebra.go c a rest d = setAlgebra.go c b rest d := by
+  induction rest generalizing d with
+  | nil => rfl
+  | cons k r ih =>
+    unfold setAlgebra.go
+    rw [setOf_sim h]
+    split
+    · rfl
+    · rfl
+    · exact ih _
+theorem setAlgebra_sim (op : SetOp) (f : Bytes) (r : List Bytes) : setAlgebra c a op f r = setAlgebra c b op f r := by
+  unfold setAlgebra
+  simp only [setOf_sim h, setOperand_sim h, setAlgebra_go_sim h]
+theorem sintercard_collect_sim (ks : List Bytes) (acc : List (List Bytes)) :
+    cmdSInterCard.collect c a ks acc = cmdSInterCard.collect c b ks acc := by
+  induction ks generalizing acc with
+  | nil => rfl
+  | cons k r ih =>
+    unfold cmdSInterCard.collect
+    rw [setOf_sim h]
+    split
+    · rfl
+    · rfl
+    · exact ih _
+end helpers
+
+theorem raw_update_ne7 (db : Db) (k k' : Bytes) (e : Entry) (v : Val) (hne : (k == k') = false) :
+    (db.update k e v).raw k' = db.raw k' := by
+  unfold Db.update
+  simp only
+  have key : ∀ (p : Prop) [Decidable p], (if p then (db.del k).setDirty else (db.poke k { e with val := v }).setDirty).raw k' = db.raw k' := by
+    intro p _
+    split
+    · exact raw_del_ne' db k k' hne
+    · exact raw_poke_ne' db k k' _ hne
+  exact key _
+
+theorem raw_upd_ne7 (c : Ctx) (db : Db) (k k' : Bytes) (e : Entry) (v : Val) (hne : (k == k') = false) :
+    (upd c db k e v).raw k' = db.raw k' := by
+  unfold upd
+  simp only
+  rw [raw_update_ne7 _ k k' _ v hne]
+  unfold bump
+  split <;> rfl
+
+theorem listOf_live {c : Ctx} {db : Db} {k : Bytes} {e : Entry} {l : List Bytes}
+    (hl : listOf c db k = .ok (some (e, l))) : db.live c.now k = some e := by
+  unfold listOf at hl
+  split at hl
+  · split at hl
+    · cases hl; assumption
+    · cases hl
+  · cases hl
+
+theorem listOf_none_live {c : Ctx} {db : Db} {k : Bytes}
+    (hl : listOf c db k = .ok none) : db.live c.now k = none := by
+  unfold listOf at hl
+  split at hl
+  · split at hl <;> cases hl
+  · assumption
+
+
+attribute [local irreducible] bump
+
+macro "obs" : tactic => `(tactic| (repeat' (first
+  | assumption
+  | rfl
+  | (refine Obs.mk rfl rfl rfl rfl ?_)
+  | (refine sim_put ?_ _ _ _)
+  | (refine sim_setDirty ?_)
+  | (refine sim_del ?_ _)
+  | (refine sim_upd _ ?_ _ _ _)
+  | (refine sim_dirtyUnlessQuirk _ ?_)
+  | (refine sim_poke ?_ _ _)
+  | (exact sim_bump_fst (by assumption) _)
+  | (exact setKey_fst_sim (by assumption) _ _ _ _ _)
+  | (exact putAll_sim (by assumption) _ _ _ (by assumption))
+  | dsimp only [R.ok]
+  | split)))
+
+section
+variable (c : Ctx) (a b' : Db) (k k2 v f m : Bytes) (i j : Int) (o : SetOpts) (b b2 : Bool)
+  (ks : List Bytes) (kvs : List (Bytes × Bytes)) (oi oj ok' : Option Int) (n : Nat)
+  (h : Sim c.now a b') (hr : c.q.rawLookupSeesExpired = false)
+include h hr
+
+macro "obs_pre" : tactic => `(tactic| (simp only [Sim.live ‹Sim _ _ _›, listOf_sim ‹Sim _ _ _›, hashOf_sim ‹Sim _ _ _›, setOf_sim ‹Sim _ _ _›,
+   setOperand_sim ‹Sim _ _ _›, setKey_snd_sim ‹Sim _ _ _›, setAlgebra_sim ‹Sim _ _ _›, sintercard_collect_sim ‹Sim _ _ _›, srcLookup_sim ‹Sim _ _ _› ‹_ = false›, strValue_sim ‹Sim _ _ _›, sortSource_sim ‹Sim _ _ _›, bump_snd_sim ‹Sim _ _ _›]))
+
+theorem set_obs : Obs c.now (cmdSet c a k v o b) (cmdSet c b' k v o b) := by unfold cmdSet; obs_pre; obs
+theorem get_obs : Obs c.now (cmdGet c a k) (cmdGet c b' k) := by unfold cmdGet; obs_pre; obs
+theorem getdel_obs : Obs c.now (cmdGetDel c a k) (cmdGetDel c b' k) := by unfold cmdGetDel; obs_pre; obs
+theorem getex_obs (e : Option ExpArg) : Obs c.now (cmdGetEx c a k e) (cmdGetEx c b' k e) := by unfold cmdGetEx; obs_pre; obs
+theorem strlen_obs : Obs c.now (cmdStrlen c a k) (cmdStrlen c b' k) := by unfold cmdStrlen; obs_pre; obs
+theorem getrange_obs : Obs c.now (cmdGetRange c a k i j) (cmdGetRange c b' k i j) := by unfold cmdGetRange; obs_pre; obs
+theorem setrange_obs : Obs c.now (cmdSetRange c a k i v) (cmdSetRange c b' k i v) := by unfold cmdSetRange; obs_pre; obs
+theorem incrby_obs : Obs c.now (cmdIncrBy c a k i) (cmdIncrBy c b' k i) := by unfold cmdIncrBy; obs_pre; obs
+theorem mget_obs : Obs c.now (cmdMGet c a ks) (cmdMGet c b' ks) := by unfold cmdMGet; obs_pre; obs
+theorem mset_obs : Obs c.now (cmdMSet c a kvs b) (cmdMSet c b' kvs b) := by unfold cmdMSet; obs_pre; obs
+theorem incrbyfloat_obs : Obs c.now (cmdIncrByFloat c a k v) (cmdIncrByFloat c b' k v) := by unfold cmdIncrByFloat; obs_pre; obs
+theorem push_obs : Obs c.now (cmdPush c a k ks b b2) (cmdPush c b' k ks b b2) := by unfold cmdPush; obs_pre; obs
+theorem llen_obs : Obs c.now (cmdLLen c a k) (cmdLLen c b' k) := by unfold cmdLLen; obs_pre; obs
+theorem lindex_obs : Obs c.now (cmdLIndex c a k i) (cmdLIndex c b' k i) := by unfold cmdLIndex; obs_pre; obs
+theorem lrange_obs : Obs c.now (cmdLRange c a k i j) (cmdLRange c b' k i j) := by unfold cmdLRange; obs_pre; obs
+theorem lset_obs : Obs c.now (cmdLSet c a k i v) (cmdLSet c b' k i v) := by unfold cmdLSet; obs_pre; obs
+theorem linsert_obs : Obs c.now (cmdLInsert c a k b v m) (cmdLInsert c b' k b v m) := by unfold cmdLInsert; obs_pre; obs
+theorem lrem_obs : Obs c.now (cmdLRem c a k i v) (cmdLRem c b' k i v) := by unfold cmdLRem; obs_pre; obs
+theorem ltrim_obs : Obs c.now (cmdLTrim c a k i j) (cmdLTrim c b' k i j) := by unfold cmdLTrim; obs_pre; obs
+theorem lpos_obs : Obs c.now (cmdLPos c a k v oi oj ok') (cmdLPos c b' k v oi oj ok') := by unfold cmdLPos; obs_pre; obs
+theorem hset_obs : Obs c.now (cmdHSet c a k kvs b b2) (cmdHSet c b' k kvs b b2) := by unfold cmdHSet; obs_pre; obs
+theorem hget_obs : Obs c.now (cmdHGet c a k f) (cmdHGet c b' k f) := by unfold cmdHGet; obs_pre; obs
+theorem hmget_obs : Obs c.now (cmdHMGet c a k ks) (cmdHMGet c b' k ks) := by unfold cmdHMGet; obs_pre; obs
+theorem hgetall_obs : Obs c.now (cmdHGetAll c a k) (cmdHGetAll c b' k) := by unfold cmdHGetAll; obs_pre; obs
+theorem hkeys_obs : Obs c.now (cmdHKeys c a k b) (cmdHKeys c b' k b) := by unfold cmdHKeys; obs_pre; obs
+theorem hlen_obs : Obs c.now (cmdHLen c a k) (cmdHLen c b' k) := by unfold cmdHLen; obs_pre; obs
+theorem hexists_obs : Obs c.now (cmdHExists c a k f) (cmdHExists c b' k f) := by unfold cmdHExists; obs_pre; obs
+theorem hstrlen_obs : Obs c.now (cmdHStrlen c a k f) (cmdHStrlen c b' k f) := by unfold cmdHStrlen; obs_pre; obs
+theorem hdel_obs : Obs c.now (cmdHDel c a k ks) (cmdHDel c b' k ks) := by unfold cmdHDel; obs_pre; obs
+theorem hincrby_obs : Obs c.now (cmdHIncrBy c a k f i) (cmdHIncrBy c b' k f i) := by unfold cmdHIncrBy; obs_pre; obs
+theorem hincrbyfloat_obs : Obs c.now (cmdHIncrByFloat c a k f v) (cmdHIncrByFloat c b' k f v) := by unfold cmdHIncrByFloat; obs_pre; obs
+theorem sadd_obs : Obs c.now (cmdSAdd c a k ks) (cmdSAdd c b' k ks) := by unfold cmdSAdd; obs_pre; obs
+theorem srem_obs : Obs c.now (cmdSRem c a k ks) (cmdSRem c b' k ks) := by unfold cmdSRem; obs_pre; obs
+theorem scard_obs : Obs c.now (cmdSCard c a k) (cmdSCard c b' k) := by unfold cmdSCard; obs_pre; obs
+theorem sismember_obs : Obs c.now (cmdSIsMember c a k m) (cmdSIsMember c b' k m) := by unfold cmdSIsMember; obs_pre; obs
+theorem smismember_obs : Obs c.now (cmdSMIsMember c a k ks) (cmdSMIsMember c b' k ks) := by unfold cmdSMIsMember; obs_pre; obs
+theorem smembers_obs : Obs c.now (cmdSMembers c a k) (cmdSMembers c b' k) := by unfold cmdSMembers; obs_pre; obs
+theorem smove_obs : Obs c.now (cmdSMove c a k k2 m) (cmdSMove c b' k k2 m) := by unfold cmdSMove; obs_pre; obs
+theorem setalgebra_obs (op : SetOp) : Obs c.now (cmdSetAlgebra c a op ks) (cmdSetAlgebra c b' op ks) := by unfold cmdSetAlgebra; obs_pre; obs
+theorem setalgebrastore_obs (op : SetOp) : Obs c.now (cmdSetAlgebraStore c a op k ks) (cmdSetAlgebraStore c b' op k ks) := by unfold cmdSetAlgebraStore; obs_pre; obs
+theorem sintercard_obs : Obs c.now (cmdSInterCard c a i ks j) (cmdSInterCard c b' i ks j) := by unfold cmdSInterCard; obs_pre; obs
+theorem exists_obs : Obs c.now (cmdExists c a ks) (cmdExists c b' ks) := by unfold cmdExists; obs_pre; obs
+theorem type_obs : Obs c.now (cmdType c a k) (cmdType c b' k) := by unfold cmdType; obs_pre; obs
+theorem rename_obs : Obs c.now (cmdRename c a k k2 b) (cmdRename c b' k k2 b) := by unfold cmdRename; obs_pre; obs
+theorem copy_obs : Obs c.now (cmdCopy c a k k2 b) (cmdCopy c b' k k2 b) := by unfold cmdCopy; obs_pre; obs
+theorem expireat_obs (opt : ExpireOpt) : Obs c.now (cmdExpireAt c a k i opt) (cmdExpireAt c b' k i opt) := by unfold cmdExpireAt; obs_pre; obs
+theorem persist_obs : Obs c.now (cmdPersist c a k) (cmdPersist c b' k) := by unfold cmdPersist; obs_pre; obs
+theorem ttl_obs (kind : TtlKind) : Obs c.now (cmdTtl c a k kind) (cmdTtl c b' k kind) := by unfold cmdTtl; obs_pre; obs
+theorem getbit_obs : Obs c.now (cmdGetBit c a k i) (cmdGetBit c b' k i) := by unfold cmdGetBit; obs_pre; obs
+theorem bitpos_obs (st : Option Int) (en : Option (Int × Bool)) : Obs c.now (cmdBitPos c a k i st en) (cmdBitPos c b' k i st en) := by unfold cmdBitPos; obs_pre; obs
+theorem bitop_obs : Obs c.now (cmdBitOp c a k k2 ks) (cmdBitOp c b' k k2 ks) := by unfold cmdBitOp; obs_pre; obs
+theorem bitfieldParsed_obs (ps : List BfParsed) : Obs c.now (cmdBitfieldParsed c a k ps) (cmdBitfieldParsed c b' k ps) := by unfold cmdBitfieldParsed; obs_pre; obs
+
+theorem append_obs : Obs c.now (cmdAppend c a k v) (cmdAppend c b' k v) := by unfold cmdAppend; obs_pre; obs
+theorem decrby_obs : Obs c.now (cmdDecrBy c a k i) (cmdDecrBy c b' k i) := by
+  unfold cmdDecrBy
+  split
+  · exact ⟨rfl, rfl, rfl, rfl, h⟩
+  · exact incrby_obs c a b' k _ h hr
+theorem pop_obs : Obs c.now (cmdPop c a k oi b) (cmdPop c b' k oi b) := by
+  have go : ∀ n multi, Obs c.now (cmdPop.go c a k b n multi) (cmdPop.go c b' k b n multi) := by
+    intro n multi
+    unfold cmdPop.go
+    obs_pre; obs
+  unfold cmdPop
+  split
+  · split
+    · exact ⟨rfl, rfl, rfl, rfl, h⟩
+    · exact go _ _
+  · exact go _ _
+theorem bitfield_obs (ops : List BfOp) : Obs c.now (cmdBitfield c a k ops) (cmdBitfield c b' k ops) := by
+  unfold cmdBitfield
+  split
+  · exact ⟨rfl, rfl, rfl, rfl, h⟩
+  · exact bitfieldParsed_obs c a b' k h hr _
+theorem setbit_obs : Obs c.now (cmdSetBit c a k i j) (cmdSetBit c b' k i j) := by
+  unfold cmdSetBit
+  split
+  · exact ⟨rfl, rfl, rfl, rfl, h⟩
+  · split
+    · exact ⟨rfl, rfl, rfl, rfl, h⟩
+    · have hb := bitfieldParsed_obs c a b' k h hr [{ kind := .set, signed := false, width := 1, off := i, value := j, ov := .wrap }]
+      dsimp only
+      rw [hb.reply]
+      split
+      · exact ⟨rfl, hb.hint, hb.crash, hb.pushed, hb.db⟩
+      · exact ⟨hb.reply, hb.hint, hb.crash, hb.pushed, hb.db⟩
+theorem bitcount_obs (r : Option (Int × Int × Bool)) : Obs c.now (cmdBitCount c a k r) (cmdBitCount c b' k r) := by
+  unfold cmdBitCount
+  rw [h.live]
+  split
+  · exact ⟨rfl, rfl, rfl, rfl, h⟩
+  · split_ifs <;> first
+      | exact ⟨rfl, rfl, rfl, rfl, h⟩
+      | (extract_lets; split_ifs <;> exact ⟨rfl, rfl, rfl, rfl, h⟩)
+  · exact ⟨rfl, rfl, rfl, rfl, h⟩
+theorem lmpop_obs : Obs c.now (cmdLMPop c a ks b n) (cmdLMPop c b' ks b n) := by
+  have go : ∀ ks, Obs c.now (cmdLMPop.go c a b n ks) (cmdLMPop.go c b' b n ks) := by
+    intro ks
+    induction ks with
+    | nil => exact ⟨rfl, rfl, rfl, rfl, h⟩
+    | cons x r ih =>
+      unfold cmdLMPop.go
+      rw [listOf_sim h]
+      split
+      · exact ⟨rfl, rfl, rfl, rfl, h⟩
+      · exact ih
+      · split
+        · exact ih
+        · obs
+  unfold cmdLMPop
+  exact go ks
+theorem bpop_obs : Obs c.now (runCmd.go c b a ks) (runCmd.go c b b' ks) := by
+  induction ks with
+  | nil => exact ⟨rfl, rfl, rfl, rfl, h⟩
+  | cons x r ih =>
+    unfold runCmd.go
+    rw [listOf_sim h]
+    split
+    · exact ⟨rfl, rfl, rfl, rfl, h⟩
+    · exact ih
+    · split
+      · exact ih
+      · obs
+theorem sortFinish_obs (store : Option Bytes) (out : List Value) (hint : Match) :
+    Obs c.now (sortFinish a store out hint) (sortFinish b' store out hint) := by
+  unfold sortFinish
+  obs
+theorem sortCompute_sim (xs : List Bytes) (isSet : Bool) (by_ : Option Bytes) (limit : Option (Int × Int))
+    (gets : List Bytes) (x y z : Bool) :
+    sortCompute c a xs isSet by_ limit gets x y z = sortCompute c b' xs isSet by_ limit gets x y z := by
+  unfold sortCompute
+  simp only [strValue_sim h]
+theorem sort_obs (by_ : Option Bytes) (limit : Option (Int × Int)) (gets : List Bytes) (store : Option Bytes) :
+    Obs c.now (cmdSort c a k by_ limit gets b b2 store) (cmdSort c b' k by_ limit gets b b2 store) := by
+  unfold cmdSort
+  simp only [sortSource_sim h, sortCompute_sim c a b' h hr]
+  split
+  · exact ⟨rfl, rfl, rfl, rfl, h⟩
+  · exact sortFinish_obs c a b' h hr _ _ _
+  · split
+    · exact ⟨rfl, rfl, rfl, rfl, h⟩
+    · exact sortFinish_obs c a b' h hr _ _ _
+
+theorem del_obs : Obs c.now (cmdDel c a ks b) (cmdDel c b' ks b) := by
+  unfold cmdDel
+  have key : ∀ (ks : List Bytes) (x y : Db × Nat), Sim c.now x.1 y.1 → x.2 = y.2 →
+      let step := fun (acc : Db × Nat) (k : Bytes) =>
+        match acc with
+        | (db, n) =>
+          match db.live c.now k with
+          | some e =>
+            if (b || !c.q.unlinkKeepsObject) = true then (db.del k, n + 1)
+            else (db.poke k { val := e.val, exp := some 0, id := e.id }, n + 1)
+          | none => if b = true then (db.del k, n) else (db, n)
+      Sim c.now (ks.foldl step x).1 (ks.foldl step y).1 ∧ (ks.foldl step x).2 = (ks.foldl step y).2 := by
+    intro ks
+    induction ks with
+    | nil => intro x y h1 h2; exact ⟨h1, h2⟩
+    | cons k r ih =>
+      intro x y h1 h2
+      simp only [List.foldl_cons]
+      apply ih
+      · obtain ⟨d, n⟩ := x
+        obtain ⟨d', n'⟩ := y
+        dsimp only at h1 h2 ⊢
+        rw [h1.live k]
+        split
+        · split
+          · exact sim_del h1 _
+          · exact sim_poke h1 _ _
+        · split
+          · exact sim_del h1 _
+          · exact h1
+      · obtain ⟨d, n⟩ := x
+        obtain ⟨d', n'⟩ := y
+        dsimp only at h1 h2 ⊢
+        rw [h1.live k, h2]
+        split
+        · split <;> rfl
+        · split <;> rfl
+  obtain ⟨k1, k2⟩ := key ks (a, 0) (b', 0) h rfl
+  dsimp only at k1 k2 ⊢
+  refine ⟨?_, rfl, rfl, rfl, ?_⟩
+  · simp only [R.ok]; exact congrArg vInt k2
+  · exact k1
+
+theorem lmove_tail (A B : Db) (se : Entry) (v : Val) (x : Bytes) (h1 : Sim c.now A B) (hraw : A.raw k2 = B.raw k2)
+    (hne : (k == k2) = false) :
+    Obs c.now
+      (match (upd c A k se v).raw k2 with
+        | some de =>
+          let dl := match de.val with | .list l => l | _ => []
+          let dl' := if b2 then x :: dl else dl ++ [x]
+          let (db3, de3) := bump c (upd c A k se v) de
+          { db := (db3.poke k2 { de3 with val := .list dl' }).setDirty, reply := .bulk x, pushed := [(k2, 1)] }
+        | none => R.crashed a "lmove: destination vanished")
+      (match (upd c B k se v).raw k2 with
+        | some de =>
+          let dl := match de.val with | .list l => l | _ => []
+          let dl' := if b2 then x :: dl else dl ++ [x]
+          let (db3, de3) := bump c (upd c B k se v) de
+          { db := (db3.poke k2 { de3 with val := .list dl' }).setDirty, reply := .bulk x, pushed := [(k2, 1)] }
+        | none => R.crashed b' "lmove: destination vanished") := by
+  have h2 := sim_upd c h1 k se v
+  rw [raw_upd_ne7 _ _ _ _ _ _ hne, raw_upd_ne7 _ _ _ _ _ _ hne, hraw]
+  split
+  · rename_i de hde
+    dsimp only
+    rw [bump_snd_sim h2]
+    exact ⟨rfl, rfl, rfl, rfl, sim_setDirty (sim_poke (sim_bump_fst h2 de) _ _)⟩
+  · exact ⟨rfl, rfl, rfl, rfl, h⟩
+
+theorem lmove_obs : Obs c.now (cmdLMove c a k k2 b b2) (cmdLMove c b' k k2 b b2) := by
+  unfold cmdLMove
+  simp only [listOf_sim h]
+  split
+  · exact ⟨rfl, rfl, rfl, rfl, h⟩
+  · exact ⟨rfl, rfl, rfl, rfl, h⟩
+  · split
+    · exact ⟨rfl, rfl, rfl, rfl, h⟩
+    · rename_i se sl hsrc _ dstInfo hdst
+      split
+      · exact ⟨rfl, rfl, rfl, rfl, h⟩
+      · rename_i x hx
+        split
+        · obs
+        · rename_i hne
+          have hne' : (k == k2) = false := by simpa using hne
+          cases dstInfo with
+          | none =>
+            dsimp only
+            exact lmove_tail c a b' k k2 b2 h hr _ _ se _ x (sim_put h _ _ _)
+              (by rw [raw_put_self, raw_put_self, h.next]) hne'
+          | some p =>
+            obtain ⟨de0, dl0⟩ := p
+            have hb := listOf_live hdst
+            have ha := hb
+            rw [← h.live] at ha
+            dsimp only
+            exact lmove_tail c a b' k k2 b2 h hr _ _ se _ x h
+              (by rw [(live_some_raw ha).1, (live_some_raw hb).1]) hne'
+end
+
+
+/-! ### expired = missing -/
+
+/-- the database with every expired object removed (what an eager expiry would leave) -/
+def Db.purge (now : Int) (db : Db) : Db := { db with keys := db.keys.filter fun p => !p.2.expired now }
+
+theorem alookup_filter_none (k : Bytes) (l : List (Bytes × Entry)) (p : Bytes × Entry → Bool)
+    (h : alookup k l = none) : alookup k (l.filter p) = none := by
+  induction l with
+  | nil => rfl
+  | cons q r ih =>
+    obtain ⟨k', e'⟩ := q
+    by_cases hk : (k' == k) = true
+    · simp [alookup, hk] at h
+    · simp only [alookup, hk, Bool.false_eq_true, ↓reduceIte] at h
+      simp only [List.filter_cons]
+      split
+      · simp only [alookup, hk, Bool.false_eq_true, ↓reduceIte]; exact ih h
+      · exact ih h
+
+theorem alookup_none_of_not_mem (k : Bytes) (l : List (Bytes × Entry)) (h : k ∉ l.map (·.1)) : alookup k l = none := by
+  induction l with
+  | nil => rfl
+  | cons q r ih =>
+    obtain ⟨k', e'⟩ := q
+    simp only [List.map_cons, List.mem_cons, not_or] at h
+    have hk : (k' == k) = false := by
+      cases hkk : k' == k with
+      | false => rfl
+      | true => exact absurd (by simpa using hkk : k' = k).symm h.1
+    simp only [alookup, hk, Bool.false_eq_true, ↓reduceIte]
+    exact ih h.2
+
+def liveOf (now : Int) : Option Entry → Option Entry
+  | some e => if e.expired now then none else some e
+  | none => none
+
+theorem live_filter (now : Int) (k : Bytes) (l : List (Bytes × Entry)) (hu : (l.map (·.1)).Nodup) :
+    liveOf now (alookup k (l.filter fun p => !p.2.expired now)) = liveOf now (alookup k l) := by
+  induction l with
+  | nil => rfl
+  | cons q r ih =>
+    obtain ⟨k', e'⟩ := q
+    simp only [List.map_cons, List.nodup_cons] at hu
+    by_cases hk : (k' == k) = true
+    · have e : k' = k := by simpa using hk
+      subst e
+      simp only [List.filter_cons]
+      cases hx : e'.expired now with
+      | true =>
+        simp only [Bool.not_true, Bool.false_eq_true, ↓reduceIte, alookup, beq_self_eq_true]
+        rw [alookup_filter_none k' r _ (alookup_none_of_not_mem k' r hu.1)]
+        simp [liveOf, hx]
+      | false =>
+        simp only [Bool.not_false, ↓reduceIte, alookup, beq_self_eq_true]
+    · simp only [List.filter_cons]
+      split
+      · simp only [alookup, hk, Bool.false_eq_true, ↓reduceIte]; exact ih hu.2
+      · simp only [alookup, hk, Bool.false_eq_true, ↓reduceIte]; exact ih hu.2
+
+theorem live_eq_liveOf (now : Int) (db : Db) (k : Bytes) : db.live now k = liveOf now (db.raw k) := by
+  unfold Db.live liveOf; rfl
+
+theorem live_purge_eq (now : Int) (db : Db) (hu : db.Uniq) (k : Bytes) : (db.purge now).live now k = db.live now k := by
+  rw [live_eq_liveOf, live_eq_liveOf]
+  exact live_filter now k db.keys hu
+
+theorem uniq_purge (now : Int) (db : Db) (hu : db.Uniq) : (db.purge now).Uniq := by
+  unfold Db.Uniq Db.purge at *
+  exact List.Nodup.sublist (List.Sublist.map _ List.filter_sublist) hu
+
+/-- a database and its purged copy cannot be told apart -/
+theorem sim_purge (now : Int) (db : Db) (hu : db.Uniq) : Sim now (db.purge now) db :=
+  ⟨uniq_purge now db hu, hu, rfl, live_purge_eq now db hu⟩
+
+/-- after the purge nothing expired is stored: every stored key is a live key -/
+theorem purge_all_live (now : Int) (db : Db) (p : Bytes × Entry) (hp : p ∈ (db.purge now).keys) : p.2.expired now = false := by
+  unfold Db.purge at hp
+  simp only [List.mem_filter, Bool.not_eq_eq_eq_not, Bool.not_true] at hp
+  exact hp.2
+
+
+theorem mem_liveKeys (db : Db) (now : Int) (hu : db.Uniq) (k : Bytes) :
+    k ∈ db.liveKeys now ↔ (db.live now k).isSome = true := by
+  unfold Db.liveKeys
+  constructor
+  · intro hm
+    obtain ⟨p, hp, hk⟩ := List.mem_map.mp hm
+    obtain ⟨hp1, hp2⟩ := List.mem_filter.mp hp
+    have hraw : db.raw k = some p.2 := by
+      have := alookup_of_mem_nodup db.keys p hp1 hu
+      rw [hk] at this; exact this
+    unfold Db.live
+    rw [hraw]
+    have hx : p.2.expired now = false := by simpa using hp2
+    simp [hx]
+  · intro hl
+    cases hlv : db.live now k with
+    | none => rw [hlv] at hl; cases hl
+    | some e =>
+      obtain ⟨h1, h2⟩ := live_some_raw hlv
+      have hm := mem_of_alookup k db.keys e h1
+      exact List.mem_map.mpr ⟨(k, e), List.mem_filter.mpr ⟨hm, by simp [h2]⟩, rfl⟩
+
+theorem nodup_liveKeys (db : Db) (now : Int) (hu : db.Uniq) : (db.liveKeys now).Nodup := by
+  unfold Db.liveKeys Db.Uniq at *
+  exact List.Nodup.sublist (List.Sublist.map _ List.filter_sublist) hu
+
+/-- DBSIZE counts the live keys: the same number on both sides -/
+theorem liveKeys_length_sim {now : Int} {a b : Db} (h : Sim now a b) :
+    (a.liveKeys now).length = (b.liveKeys now).length := by
+  apply List.Perm.length_eq
+  rw [List.perm_ext_iff_of_nodup (nodup_liveKeys a now h.ua) (nodup_liveKeys b now h.ub)]
+  intro k
+  rw [mem_liveKeys a now h.ua, mem_liveKeys b now h.ub, h.live]
+
+/-! ### the whole server -/
+
+/-- two servers that differ at most in what expired objects their databases still store -/
+structure SimS (now : Int) (s s' : State) : Prop where
+  sessions : s.sessions = s'.sessions
+  table : s.table = s'.table
+  nextRef : s.nextRef = s'.nextRef
+  refs : s.heap.map (·.1) = s'.heap.map (·.1)
+  dbs : ∀ r, Sim now (s.getDb r) (s'.getDb r)
+
+/-- two outcomes of a command no client can tell apart -/
+structure ObsOut (now : Int) (o o' : Out) : Prop where
+  reply : o.reply = o'.reply
+  hint : o.hint = o'.hint
+  crash : o.crash = o'.crash
+  pushed : o.pushed = o'.pushed
+  judged : o.judged = o'.judged
+  st : SimS now o.st o'.st
+
+theorem obsOut_same {now : Int} {s s' : State} (hs : SimS now s s') (v : Value) (hint : Match) :
+    ObsOut now { st := s, reply := v, hint := hint } { st := s', reply := v, hint := hint } :=
+  ⟨rfl, rfl, rfl, rfl, rfl, hs⟩
+
+theorem any_of_refs {s s' : State} (h : s.heap.map (·.1) = s'.heap.map (·.1)) (ref : Nat) :
+    s.heap.any (·.1 == ref) = s'.heap.any (·.1 == ref) := by
+  have e1 : s.heap.any (·.1 == ref) = (s.heap.map (·.1)).any (· == ref) := by rw [List.any_map]; rfl
+  have e2 : s'.heap.any (·.1 == ref) = (s'.heap.map (·.1)).any (· == ref) := by rw [List.any_map]; rfl
+  rw [e1, e2, h]
+
+theorem refs_setDb {s s' : State} (h : s.heap.map (·.1) = s'.heap.map (·.1)) (ref : Nat) (d d' : Db) :
+    (s.setDb ref d).heap.map (·.1) = (s'.setDb ref d').heap.map (·.1) := by
+  unfold State.setDb
+  simp only
+  rw [any_of_refs h ref]
+  split
+  · have m1 : ∀ (l : List (Nat × Db)) (x : Db), (l.map fun (p : Nat × Db) => if p.1 == ref then (p.1, x) else (p.1, p.2)).map (·.1) = l.map (·.1) := by
+      intro l x
+      induction l with
+      | nil => rfl
+      | cons p t ih => simp only [List.map_cons, ih]; split <;> rfl
+    rw [m1, m1, h]
+  · simp only [List.map_append, h, List.map_cons, List.map_nil]
+
+theorem simS_setDb {now : Int} {s s' : State} (hs : SimS now s s') (ref : Nat) (d d' : Db) (hd : Sim now d d') :
+    SimS now (s.setDb ref d) (s'.setDb ref d') := by
+  refine ⟨?_, ?_, ?_, refs_setDb hs.refs ref d d', ?_⟩
+  · simp [hs.sessions]
+  · simp [hs.table]
+  · simp [State.setDb, hs.nextRef]
+  · intro r
+    by_cases e : (ref == r) = true
+    · have : ref = r := by simpa using e
+      subst this
+      rw [getDb_setDb_self, getDb_setDb_self]; exact hd
+    · rw [getDb_setDb_ne _ _ _ _ (by simpa using e), getDb_setDb_ne _ _ _ _ (by simpa using e)]
+      exact hs.dbs r
+
+theorem simS_setSession {now : Int} {s s' : State} (hs : SimS now s s') (conn : Nat) (x : Session) :
+    SimS now (s.setSession conn x) (s'.setSession conn x) := by
+  refine ⟨?_, ?_, ?_, ?_, ?_⟩
+  · unfold State.setSession; simp only [hs.sessions]
+  · simp [hs.table]
+  · simp [State.setSession, hs.nextRef]
+  · simp [hs.refs]
+  · intro r; rw [getDb_setSession, getDb_setSession]; exact hs.dbs r
+
+theorem session_simS {now : Int} {s s' : State} (hs : SimS now s s') (conn : Nat) : s.session conn = s'.session conn := by
+  unfold State.session; rw [hs.sessions]
+
+theorem uniq_empty : ({} : Db).Uniq := by simp [Db.Uniq]
+
+theorem simS_tableRef {now : Int} {s s' : State} (hs : SimS now s s') (i : Nat) :
+    SimS now (s.tableRef i).1 (s'.tableRef i).1 ∧ (s.tableRef i).2 = (s'.tableRef i).2 := by
+  unfold State.tableRef
+  rw [hs.table]
+  split
+  · exact ⟨hs, rfl⟩
+  · refine ⟨⟨hs.sessions, by simp [hs.table, hs.nextRef], by simp [hs.nextRef], by simp [hs.refs, hs.nextRef], ?_⟩, hs.nextRef⟩
+    intro r
+    have e1 := getDb_tableRef s i r
+    have e2 := getDb_tableRef s' i r
+    unfold State.tableRef at e1 e2
+    rw [hs.table] at e1
+    simp only [*] at e1 e2
+    rw [e1, e2]
+    exact hs.dbs r
+
+theorem onDb_obs {now : Int} {s s' : State} (hs : SimS now s s') (ref : Nat) (f : Db → R)
+    (hf : ∀ a b, Sim now a b → Obs now (f a) (f b)) : ObsOut now (onDb s ref f) (onDb s' ref f) := by
+  have h := hf _ _ (hs.dbs ref)
+  unfold onDb
+  exact ⟨h.reply, h.hint, h.crash, by simp only [h.pushed], rfl, simS_setDb hs ref _ _ h.db⟩
+
+/-- **No command can tell an expired key from a missing one.** Two servers whose databases hold the same
+    live objects — whatever expired objects either still stores — give, for every command, any arguments,
+    any connection: the same reply, the same wake-ups, and states that are again indistinguishable. -/
+theorem runCmd_obs (c : Ctx) (s s' : State) (conn ref : Nat) (m : Bool) (cmd : Cmd)
+    (hr : c.q.rawLookupSeesExpired = false) (hf : c.q.flushDetaches = false)
+    (hs : SimS c.now s s') : ObsOut c.now (runCmd c s conn ref m cmd) (runCmd c s' conn ref m cmd) := by
+  cases cmd
+  case copy a b rep dbOpt =>
+    simp only [runCmd]
+    split
+    · exact obsOut_same hs _ _
+    · exact onDb_obs hs _ _ (fun a b h => copy_obs (h := h) (hr := hr) ..)
+  case lmpop nk ks l cnt =>
+    simp only [runCmd]
+    split
+    · exact obsOut_same hs _ _
+    · split
+      · exact obsOut_same hs _ _
+      · exact onDb_obs hs _ _ (fun a b h => lmpop_obs (h := h) (hr := hr) ..)
+  case set a0 a1 a2 a3 => simp only [runCmd]; exact onDb_obs hs _ _ (fun a b h => set_obs (h := h) (hr := hr) ..)
+  case append a0 a1 => simp only [runCmd]; exact onDb_obs hs _ _ (fun a b h => append_obs (h := h) (hr := hr) ..)
+  case get a0 => simp only [runCmd]; exact onDb_obs hs _ _ (fun a b h => get_obs (h := h) (hr := hr) ..)
+  case getdel a0 => simp only [runCmd]; exact onDb_obs hs _ _ (fun a b h => getdel_obs (h := h) (hr := hr) ..)
+  case getex a0 a1 => simp only [runCmd]; exact onDb_obs hs _ _ (fun a b h => getex_obs (h := h) (hr := hr) ..)
+  case strlen a0 => simp only [runCmd]; exact onDb_obs hs _ _ (fun a b h => strlen_obs (h := h) (hr := hr) ..)
+  case getrange a0 a1 a2 => simp only [runCmd]; exact onDb_obs hs _ _ (fun a b h => getrange_obs (h := h) (hr := hr) ..)
+  case setrange a0 a1 a2 => simp only [runCmd]; exact onDb_obs hs _ _ (fun a b h => setrange_obs (h := h) (hr := hr) ..)
+  case incrby a0 a1 => simp only [runCmd]; exact onDb_obs hs _ _ (fun a b h => incrby_obs (h := h) (hr := hr) ..)
+  case decrby a0 a1 => simp only [runCmd]; exact onDb_obs hs _ _ (fun a b h => decrby_obs (h := h) (hr := hr) ..)
+  case incrbyfloat a0 a1 => simp only [runCmd]; exact onDb_obs hs _ _ (fun a b h => incrbyfloat_obs (h := h) (hr := hr) ..)
+  case mget a0 => simp only [runCmd]; exact onDb_obs hs _ _ (fun a b h => mget_obs (h := h) (hr := hr) ..)
+  case mset a0 a1 => simp only [runCmd]; exact onDb_obs hs _ _ (fun a b h => mset_obs (h := h) (hr := hr) ..)
+  case push a0 a1 a2 a3 => simp only [runCmd]; exact onDb_obs hs _ _ (fun a b h => push_obs (h := h) (hr := hr) ..)
+  case pop a0 a1 a2 => simp only [runCmd]; exact onDb_obs hs _ _ (fun a b h => pop_obs (h := h) (hr := hr) ..)
+  case llen a0 => simp only [runCmd]; exact onDb_obs hs _ _ (fun a b h => llen_obs (h := h) (hr := hr) ..)
+  case lindex a0 a1 => simp only [runCmd]; exact onDb_obs hs _ _ (fun a b h => lindex_obs (h := h) (hr := hr) ..)
+  case lrange a0 a1 a2 => simp only [runCmd]; exact onDb_obs hs _ _ (fun a b h => lrange_obs (h := h) (hr := hr) ..)
+  case lset a0 a1 a2 => simp only [runCmd]; exact onDb_obs hs _ _ (fun a b h => lset_obs (h := h) (hr := hr) ..)
+  case linsert a0 a1 a2 a3 => simp only [runCmd]; exact onDb_obs hs _ _ (fun a b h => linsert_obs (h := h) (hr := hr) ..)
+  case lrem a0 a1 a2 => simp only [runCmd]; exact onDb_obs hs _ _ (fun a b h => lrem_obs (h := h) (hr := hr) ..)
+  case ltrim a0 a1 a2 => simp only [runCmd]; exact onDb_obs hs _ _ (fun a b h => ltrim_obs (h := h) (hr := hr) ..)
+  case lpos a0 a1 a2 a3 a4 => simp only [runCmd]; exact onDb_obs hs _ _ (fun a b h => lpos_obs (h := h) (hr := hr) ..)
+  case lmove a0 a1 a2 a3 => simp only [runCmd]; exact onDb_obs hs _ _ (fun a b h => lmove_obs (h := h) (hr := hr) ..)
+  case hset a0 a1 a2 a3 => simp only [runCmd]; exact onDb_obs hs _ _ (fun a b h => hset_obs (h := h) (hr := hr) ..)
+  case hget a0 a1 => simp only [runCmd]; exact onDb_obs hs _ _ (fun a b h => hget_obs (h := h) (hr := hr) ..)
+  case hmget a0 a1 => simp only [runCmd]; exact onDb_obs hs _ _ (fun a b h => hmget_obs (h := h) (hr := hr) ..)
+  case hgetall a0 => simp only [runCmd]; exact onDb_obs hs _ _ (fun a b h => hgetall_obs (h := h) (hr := hr) ..)
+  case hkeys a0 a1 => simp only [runCmd]; exact onDb_obs hs _ _ (fun a b h => hkeys_obs (h := h) (hr := hr) ..)
+  case hlen a0 => simp only [runCmd]; exact onDb_obs hs _ _ (fun a b h => hlen_obs (h := h) (hr := hr) ..)
+  case hexists a0 a1 => simp only [runCmd]; exact onDb_obs hs _ _ (fun a b h => hexists_obs (h := h) (hr := hr) ..)
+  case hstrlen a0 a1 => simp only [runCmd]; exact onDb_obs hs _ _ (fun a b h => hstrlen_obs (h := h) (hr := hr) ..)
+  case hdel a0 a1 => simp only [runCmd]; exact onDb_obs hs _ _ (fun a b h => hdel_obs (h := h) (hr := hr) ..)
+  case hincrby a0 a1 a2 => simp only [runCmd]; exact onDb_obs hs _ _ (fun a b h => hincrby_obs (h := h) (hr := hr) ..)
+  case hincrbyfloat a0 a1 a2 => simp only [runCmd]; exact onDb_obs hs _ _ (fun a b h => hincrbyfloat_obs (h := h) (hr := hr) ..)
+  case sadd a0 a1 => simp only [runCmd]; exact onDb_obs hs _ _ (fun a b h => sadd_obs (h := h) (hr := hr) ..)
+  case srem a0 a1 => simp only [runCmd]; exact onDb_obs hs _ _ (fun a b h => srem_obs (h := h) (hr := hr) ..)
+  case scard a0 => simp only [runCmd]; exact onDb_obs hs _ _ (fun a b h => scard_obs (h := h) (hr := hr) ..)
+  case sismember a0 a1 => simp only [runCmd]; exact onDb_obs hs _ _ (fun a b h => sismember_obs (h := h) (hr := hr) ..)
+  case smismember a0 a1 => simp only [runCmd]; exact onDb_obs hs _ _ (fun a b h => smismember_obs (h := h) (hr := hr) ..)
+  case smembers a0 => simp only [runCmd]; exact onDb_obs hs _ _ (fun a b h => smembers_obs (h := h) (hr := hr) ..)
+  case smove a0 a1 a2 => simp only [runCmd]; exact onDb_obs hs _ _ (fun a b h => smove_obs (h := h) (hr := hr) ..)
+  case salg a0 a1 => simp only [runCmd]; exact onDb_obs hs _ _ (fun a b h => setalgebra_obs (h := h) (hr := hr) ..)
+  case salgStore a0 a1 a2 => simp only [runCmd]; exact onDb_obs hs _ _ (fun a b h => setalgebrastore_obs (h := h) (hr := hr) ..)
+  case sintercard a0 a1 a2 => simp only [runCmd]; exact onDb_obs hs _ _ (fun a b h => sintercard_obs (h := h) (hr := hr) ..)
+  case del a0 a1 => simp only [runCmd]; exact onDb_obs hs _ _ (fun a b h => del_obs (h := h) (hr := hr) ..)
+  case exists_ a0 => simp only [runCmd]; exact onDb_obs hs _ _ (fun a b h => exists_obs (h := h) (hr := hr) ..)
+  case touch a0 => simp only [runCmd]; exact onDb_obs hs _ _ (fun a b h => exists_obs (h := h) (hr := hr) ..)
+  case type_ a0 => simp only [runCmd]; exact onDb_obs hs _ _ (fun a b h => type_obs (h := h) (hr := hr) ..)
+  case rename a0 a1 a2 => simp only [runCmd]; exact onDb_obs hs _ _ (fun a b h => rename_obs (h := h) (hr := hr) ..)
+  case sort a0 a1 a2 a3 a4 a5 a6 => simp only [runCmd]; exact onDb_obs hs _ _ (fun a b h => sort_obs (h := h) (hr := hr) ..)
+  case persist a0 => simp only [runCmd]; exact onDb_obs hs _ _ (fun a b h => persist_obs (h := h) (hr := hr) ..)
+  case ttl a0 a1 => simp only [runCmd]; exact onDb_obs hs _ _ (fun a b h => ttl_obs (h := h) (hr := hr) ..)
+  case getbit a0 a1 => simp only [runCmd]; exact onDb_obs hs _ _ (fun a b h => getbit_obs (h := h) (hr := hr) ..)
+  case setbit a0 a1 a2 => simp only [runCmd]; exact onDb_obs hs _ _ (fun a b h => setbit_obs (h := h) (hr := hr) ..)
+  case bitcount a0 a1 => simp only [runCmd]; exact onDb_obs hs _ _ (fun a b h => bitcount_obs (h := h) (hr := hr) ..)
+  case bitpos a0 a1 a2 a3 => simp only [runCmd]; exact onDb_obs hs _ _ (fun a b h => bitpos_obs (h := h) (hr := hr) ..)
+  case bitop a0 a1 a2 => simp only [runCmd]; exact onDb_obs hs _ _ (fun a b h => bitop_obs (h := h) (hr := hr) ..)
+  case bitfield a0 a1 a2 => simp only [runCmd]; exact onDb_obs hs _ _ (fun a b h => bitfield_obs (h := h) (hr := hr) ..)
+  case expire k n u a o => simp only [runCmd]; exact onDb_obs hs _ _ (fun a b h => expireat_obs (h := h) (hr := hr) ..)
+  case bpop ks l => simp only [runCmd]; exact onDb_obs hs _ _ (fun a b h => bpop_obs (h := h) (hr := hr) ..)
+  case select i =>
+    simp only [runCmd]
+    split
+    · exact obsOut_same hs _ _
+    · obtain ⟨h1, h2⟩ := simS_tableRef hs i.toNat
+      rw [h2, session_simS h1 conn]
+      exact ⟨rfl, rfl, rfl, rfl, rfl, simS_setSession h1 _ _⟩
+  case flushdb =>
+    simp only [runCmd, hf, Bool.false_eq_true, ↓reduceIte]
+    rw [session_simS hs conn]
+    obtain ⟨h1, h2⟩ := simS_tableRef hs (s'.session conn).dbIdx
+    rw [h2]
+    refine ⟨rfl, rfl, rfl, rfl, rfl, simS_setDb h1 _ _ _ ?_⟩
+    rw [(h1.dbs _).next]
+    exact sim_refl _ _ (by simp [Db.Uniq])
+  case flushall =>
+    simp only [runCmd, hf, Bool.false_eq_true, ↓reduceIte]
+    refine ⟨rfl, rfl, rfl, rfl, rfl, ⟨hs.sessions, hs.table, hs.nextRef, ?_, ?_⟩⟩
+    · simp only [List.map_map]
+      exact hs.refs
+    · intro r
+      have e1 := getDb_flushall s r
+      have e2 := getDb_flushall s' r
+      simp only [flushed] at e1 e2
+      rw [e1, e2, (hs.dbs r).next]
+      exact sim_refl _ _ (by simp [Db.Uniq])
+  case watch ks =>
+    simp only [runCmd]
+    split
+    · exact obsOut_same hs _ _
+    · rw [session_simS hs conn]
+      simp only [(hs.dbs ref).live]
+      exact ⟨rfl, rfl, rfl, rfl, rfl, simS_setSession hs _ _⟩
+  case unwatch =>
+    simp only [runCmd]
+    rw [session_simS hs conn]
+    exact ⟨rfl, rfl, rfl, rfl, rfl, simS_setSession hs _ _⟩
+  case hello v =>
+    simp only [runCmd]
+    rw [session_simS hs conn]
+    split
+    · split
+      · exact obsOut_same hs _ _
+      · exact ⟨rfl, rfl, rfl, rfl, rfl, simS_setSession hs _ _⟩
+    · exact obsOut_same hs _ _
+  case clientSetname nm =>
+    simp only [runCmd]
+    rw [session_simS hs conn]
+    split
+    · exact obsOut_same hs _ _
+    · exact ⟨rfl, rfl, rfl, rfl, rfl, simS_setSession hs _ _⟩
+  case ping o => cases o <;> exact obsOut_same hs _ _
+  case multi => exact obsOut_same hs _ _
+  case exec => exact obsOut_same hs _ _
+  case discard => exact obsOut_same hs _ _
+  case echo => exact obsOut_same hs _ _
+  case quit => exact obsOut_same hs _ _
+  case clientId => simp only [runCmd]; rw [session_simS hs conn]; exact obsOut_same hs _ _
+  case clientGetname => simp only [runCmd]; rw [session_simS hs conn]; exact obsOut_same hs _ _
+  case clientInfo => exact obsOut_same hs _ _
+  case clientList => exact obsOut_same hs _ _
+  case «opaque» => exact ⟨rfl, rfl, rfl, rfl, rfl, hs⟩
+  case dbsize =>
+    simp only [runCmd, hr, Bool.false_eq_true, ↓reduceIte]
+    rw [session_simS hs conn, hs.table]
+    split
+    · exact obsOut_same hs _ _
+    · rw [liveKeys_length_sim (hs.dbs _)]
+      exact obsOut_same hs _ _
+  all_goals
+    simp only [runCmd]
+    refine onDb_obs hs _ _ (fun a b h => ?_)
+    try obs_pre
+    obs
+
+
+/-! ### any history -/
+
+theorem expired_mono (e : Entry) (now now' : Int) (h : now ≤ now') (hx : e.expired now = true) : e.expired now' = true := by
+  unfold Entry.expired at *
+  cases hd : e.exp with
+  | none => rw [hd] at hx; cases hx
+  | some d =>
+    rw [hd] at hx
+    simp only [decide_eq_true_eq] at hx ⊢
+    omega
+
+/-- what cannot be told apart now cannot be told apart later: objects expire on both sides alike -/
+theorem sim_later {now now' : Int} {a b : Db} (hle : now ≤ now') (h : Sim now a b) : Sim now' a b := by
+  refine ⟨h.ua, h.ub, h.next, ?_⟩
+  intro k
+  have hk := h.live k
+  unfold Db.live at hk ⊢
+  cases ha : a.raw k with
+  | none =>
+    cases hb : b.raw k with
+    | none => rfl
+    | some eb =>
+      rw [ha, hb] at hk
+      simp only at hk ⊢
+      cases hx : eb.expired now with
+      | true => rw [expired_mono eb now now' hle hx]; rfl
+      | false => rw [hx] at hk; cases hk
+  | some ea =>
+    cases hb : b.raw k with
+    | none =>
+      rw [ha, hb] at hk
+      simp only at hk ⊢
+      cases hx : ea.expired now with
+      | true => rw [expired_mono ea now now' hle hx]; rfl
+      | false => rw [hx] at hk; cases hk
+    | some eb =>
+      rw [ha, hb] at hk
+      simp only at hk ⊢
+      cases hxa : ea.expired now with
+      | true =>
+        cases hxb : eb.expired now with
+        | true => rw [expired_mono ea now now' hle hxa, expired_mono eb now now' hle hxb]; rfl
+        | false => rw [hxa, hxb] at hk; cases hk
+      | false =>
+        cases hxb : eb.expired now with
+        | true => rw [hxa, hxb] at hk; cases hk
+        | false =>
+          rw [hxa, hxb] at hk
+          simp only [Bool.false_eq_true, ↓reduceIte, Option.some.injEq] at hk
+          rw [hk]
+
+theorem simS_later {now now' : Int} {s s' : State} (hle : now ≤ now') (h : SimS now s s') : SimS now' s s' :=
+  ⟨h.sessions, h.table, h.nextRef, h.refs, fun r => sim_later hle (h.dbs r)⟩
+
+/-- the replies a history of commands receives -/
+def replies : State → List Ev → List Value
+  | _, [] => []
+  | s, e :: r => (runCmd e.c s e.conn e.ref e.inMulti e.cmd).reply :: replies (runCmd e.c s e.conn e.ref e.inMulti e.cmd).st r
+
+/-- the clocks the commands saw do not run backwards -/
+def clocksFrom : Int → List Ev → Prop
+  | _, [] => True
+  | now, e :: r => now ≤ e.c.now ∧ clocksFrom e.c.now r
+
+theorem history_obs (evs : List Ev) : ∀ (now : Int) (s s' : State), SimS now s s' → clocksFrom now evs →
+    (∀ e ∈ evs, e.c.q.rawLookupSeesExpired = false ∧ e.c.q.flushDetaches = false) →
+    replies s evs = replies s' evs := by
+  induction evs with
+  | nil => intro _ _ _ _ _ _; rfl
+  | cons e r ih =>
+    intro now s s' hs hc hq
+    have hs' := simS_later hc.1 hs
+    have ho := runCmd_obs e.c s s' e.conn e.ref e.inMulti e.cmd (hq e List.mem_cons_self).1 (hq e List.mem_cons_self).2 hs'
+    unfold replies
+    rw [ho.reply]
+    congr 1
+    exact ih e.c.now _ _ ho.st hc.2 (fun e' he' => hq e' (List.mem_cons_of_mem _ he'))
+
+/-- the server with every expired object removed from every database -/
+def purgeS (now : Int) (s : State) : State :=
+  { s with heap := s.heap.map fun (p : Nat × Db) => (p.1, p.2.purge now) }
+
+theorem getDb_purgeS (now : Int) (s : State) (r : Nat) : (purgeS now s).getDb r = (s.getDb r).purge now := by
+  simp only [State.getDb, purgeS]
+  induction s.heap with
+  | nil => rfl
+  | cons p t ih =>
+    simp only [List.map_cons, List.find?_cons]
+    split
+    · rfl
+    · exact ih
+
+theorem simS_purgeS (now : Int) (s : State) (hu : s.Uniq) : SimS now (purgeS now s) s := by
+  refine ⟨rfl, rfl, rfl, ?_, ?_⟩
+  · simp only [purgeS, List.map_map]; rfl
+  · intro r
+    rw [getDb_purgeS]
+    exact sim_purge now _ (hu r)
+
+/-- **From the deadline on, an expired key is a missing key — for every command, in every history.**
+    Remove every expired object from every database of a server (any reachable one: unique keys is all
+    that is asked), then let any history of commands of any connections run on both servers, the clocks
+    not running backwards: every reply is the same. No command returns, counts, matches, moves, copies,
+    watches or is refused because of expired data. -/
+theorem expired_is_missing (now : Int) (s : State) (hu : s.Uniq) (evs : List Ev) (hc : clocksFrom now evs)
+    (hq : ∀ e ∈ evs, e.c.q.rawLookupSeesExpired = false ∧ e.c.q.flushDetaches = false) :
+    replies (purgeS now s) evs = replies s evs :=
+  history_obs evs now _ _ (simS_purgeS now s hu) hc hq
+
+/-- and the purged server really holds nothing expired -/
+theorem purgeS_holds_nothing_expired (now : Int) (s : State) (r : Nat) (p : Bytes × Entry)
+    (hp : p ∈ ((purgeS now s).getDb r).keys) : p.2.expired now = false := by
+  rw [getDb_purgeS] at hp
+  exact purge_all_live now _ p hp
 
 end RedisEmu
